@@ -170,5 +170,9 @@ with iexec (n : nat) (st : stmt) {struct n} : M unit :=
 End Mech.
 
 Definition irun (D : dev) (fuel : nat) (p : program) : list oitem * outcome :=
-  let '(c, s) := exec_list (iexec D (pfuncs p) fuel) (pmain p) (init_state p) in
-  (rev (sout s), match c with Fail e => Failed e | _ => Finished end).
+  match init_state p with
+  | None => ([], Failed ERange)
+  | Some s0 =>
+      let '(c, s) := exec_list (iexec D (pfuncs p) fuel) (pmain p) s0 in
+      (rev (sout s), match c with Fail e => Failed e | _ => Finished end)
+  end.
